@@ -108,6 +108,9 @@ def olric_crash(out):
     if not m:
         return None
     tail = out[m.start():]
+    if tail.startswith("panic: test timed out"):
+        # the driver as a whole ran out of time: that is not a verdict (drivers that look for hangs have their own watchdogs)
+        return None
     if "github.com/olric-data/olric/" in tail.replace("github.com/olric-data/olric/verifharness", ""):
         return tail[:4000]
     return None
